@@ -22,22 +22,59 @@ RULES = {
 def _fkb(ctx):
     M = ctx.model
     cls = M.cls('streamz.sources', 'FromKafkaBatched')
-    pk = cls.methods.get('poll_kafka')
-    if pk is None:
-        raise AnalysisError('anchor vanished: FromKafkaBatched.poll_kafka')
-    return cls, pk
+    return cls, None
 
 
-def _nested(fn, name):
-    for f in fn.module.all_funcs:
-        if f.parent is fn and f.name == name:
-            return f
-    return None
+def scope(cls):
+    """every function of the class: methods and the closures nested in them (refactorings move code between them)"""
+    return [f for f in cls.module.all_funcs if f.cls is cls]
+
+
+def _calls(fn, pred):
+    return [n for n in own_nodes(fn.node) if isinstance(n, ast.Call) and pred(n)]
+
+
+def _attr_call(n, attr):
+    return isinstance(n.func, ast.Attribute) and n.func.attr == attr
+
+
+def find_batch_site(cls):
+    """(function, append call) of the 6-tuple handed to get_message_batch"""
+    for f in scope(cls):
+        for n in own_nodes(f.node):
+            if isinstance(n, ast.Call) and _attr_call(n, 'append') and n.args and isinstance(n.args[0], ast.Tuple) \
+                    and len(n.args[0].elts) == 6:
+                return f, n
+    raise AnalysisError('FromKafkaBatched: no 6-tuple appended to a batch list was found (unrecognised spelling)')
+
+
+def kafka_names(cls):
+    """discover the local names of the batch computation by their definitions (alpha-insensitive)"""
+    F, app = find_batch_site(cls)
+    wm = None
+    for n in own_nodes(F.node):
+        if isinstance(n, ast.Assign) and isinstance(n.targets[0], (ast.Tuple, ast.List)) and isinstance(n.value, ast.Call) \
+                and _attr_call(n.value, 'get_watermark_offsets') and len(n.targets[0].elts) == 2 \
+                and all(isinstance(e, ast.Name) for e in n.targets[0].elts):
+            wm = n
+    if wm is None:
+        raise AnalysisError('FromKafkaBatched: `low, high = consumer.get_watermark_offsets(...)` not found next to the batch tuple')
+    low, high = wm.targets[0].elts[0].id, wm.targets[0].elts[1].id
+    loop = next((l for l in own_nodes(F.node) if isinstance(l, ast.For) and any(x is wm for x in ast.walk(l))), None)
+    part = loop.target.id if loop is not None and isinstance(loop.target, ast.Name) else None
+    elts = app.args[0].elts
+    start = elts[4].id if isinstance(elts[4], ast.Name) else None
+    end = None
+    e5 = elts[5]
+    if isinstance(e5, ast.BinOp) and isinstance(e5.op, ast.Sub) and isinstance(e5.left, ast.Name) and src(e5.right) == '1':
+        end = e5.left.id
+    return {'F': F, 'app': app, 'wm': wm, 'low': low, 'high': high, 'part': part, 'start': start, 'end': end, 'loop': loop,
+            'out': src(app.func.value)}
 
 
 def check_autocommit(ctx, R):
     M = ctx.model
-    cls, pk = _fkb(ctx)
+    cls, _ = _fkb(ctx)
     init = cls.methods['__init__']
     con = ctx.construct(init)
     ok, line = False, init.node.lineno
@@ -51,12 +88,13 @@ def check_autocommit(ctx, R):
     R.ob('AUTOCOMMIT-OFF', con, 'enable.auto.commit', ok,
          "auto-commit is not forced off unconditionally in the constructor: offsets could be committed before processing",
          ctx.where(init, line))
-    # the consumer is built from those parameters
-    start = cls.methods.get('start')
-    built = start is not None and any(isinstance(n, ast.Call) and src(n.func).endswith('Consumer') and n.args
-                                      and src(n.args[0]) == 'self.consumer_params' for n in own_nodes(start.node))
-    R.ob('AUTOCOMMIT-OFF', ctx.construct(start) if start else con, 'consumer-built-from-params', built,
-         'the consumer is not constructed from self.consumer_params', ctx.where(start, start.node.lineno) if start else None)
+    built = None
+    for f in scope(cls):
+        for n in own_nodes(f.node):
+            if isinstance(n, ast.Call) and src(n.func).endswith('Consumer') and n.args and src(n.args[0]) == 'self.consumer_params':
+                built = f
+    R.ob('AUTOCOMMIT-OFF', cls.module.name + '.' + cls.name, 'consumer-built-from-params', built is not None,
+         'the consumer is not constructed from self.consumer_params', '%s:%d' % (cls.file, cls.node.lineno))
     others = []
     for m in M.modules.values():
         for n in ast.walk(m.tree):
@@ -64,159 +102,167 @@ def check_autocommit(ctx, R):
                     and n.slice.value == 'enable.auto.commit':
                 if not (m.name == 'streamz.sources' and init.node.lineno <= n.lineno <= init.node.end_lineno):
                     others.append('%s:%d' % (m.relpath, n.lineno))
+            if isinstance(n, ast.Call) and isinstance(n.func, ast.Attribute) and n.func.attr in ('setdefault', 'update', 'pop') \
+                    and n.args and isinstance(n.args[0], ast.Constant) and n.args[0].value == 'enable.auto.commit':
+                others.append('%s:%d' % (m.relpath, n.lineno))
     R.ob('AUTOCOMMIT-OFF', 'streamz', 'no-other-writer', not others,
          "another site writes 'enable.auto.commit': %s" % ', '.join(others), others[0] if others else None)
 
 
-def check_commit_via_ref(ctx, R):
-    cls, pk = _fkb(ctx)
-    con = ctx.construct(pk)
-    commit = _nested(pk, 'commit')
-    ce = _nested(pk, 'checkpoint_emit')
-    if commit is None or ce is None:
-        raise AnalysisError('anchor vanished: FromKafkaBatched.poll_kafka.commit / checkpoint_emit')
+def _commit_fn(cls):
     sites = []
-    for f in pk.module.all_funcs:
-        if f.cls is cls:
-            for n in own_nodes(f.node):
-                if isinstance(n, ast.Call) and isinstance(n.func, ast.Attribute) and n.func.attr == 'commit' \
-                        and 'consumer' in src(n.func.value):
-                    sites.append((f, n))
-    ok = bool(sites) and all(f is commit for f, _ in sites)
-    R.ob('COMMIT-ONLY-VIA-REF', con, 'commit-sites', ok,
-         'consumer.commit is called outside the checkpoint closure: %s' % ', '.join('%s:%d' % (f.qual, n.lineno) for f, n in sites if f is not commit),
-         ctx.where(pk, sites[0][1].lineno) if sites else ctx.where(pk, pk.node.lineno))
-    # references to `commit`: only as the body of a lambda/closure given as cb= to RefCounter(...) in checkpoint_emit
+    for f in scope(cls):
+        for n in own_nodes(f.node):
+            if isinstance(n, ast.Call) and _attr_call(n, 'commit') and 'consumer' in src(n.func.value):
+                sites.append((f, n))
+    return sites
+
+
+def _refcounter_fn(cls):
+    out = []
+    for f in scope(cls):
+        for n in own_nodes(f.node):
+            if isinstance(n, ast.Call) and src(n.func) in ('RefCounter', 'core.RefCounter'):
+                out.append((f, n))
+    return out
+
+
+def _refers_to(node, fn):
+    """does the expression refer to function fn (closure name or self.<method>)"""
+    for x in ast.walk(node):
+        if isinstance(x, ast.Name) and x.id == fn.name and fn.owner is None:
+            return True
+        if isinstance(x, ast.Attribute) and isinstance(x.value, ast.Name) and x.value.id == 'self' and x.attr == fn.name \
+                and fn.owner is not None:
+            return True
+    return False
+
+
+def check_commit_via_ref(ctx, R):
+    cls, _ = _fkb(ctx)
+    ccon = cls.module.name + '.' + cls.name
+    sites = _commit_fn(cls)
+    cfns = {f.fq: f for f, _ in sites}
+    if len(cfns) != 1:
+        R.ob('COMMIT-ONLY-VIA-REF', ccon, 'commit-sites', False,
+             'consumer.commit must be called in exactly one function of the class (found %s)' % sorted(f.qual for f in cfns.values()),
+             '%s:%d' % (cls.file, cls.node.lineno))
+        return
+    commit = list(cfns.values())[0]
+    R.ob('COMMIT-ONLY-VIA-REF', ccon, 'commit-sites', len(sites) == 1, 'consumer.commit is called %d times' % len(sites),
+         ctx.where(commit, sites[0][1].lineno))
+    rcs = _refcounter_fn(cls)
+    if len(rcs) != 1:
+        R.ob('COMMIT-ONLY-VIA-REF', ccon, 'refcounter', False, 'expected exactly one RefCounter(...) in the class, found %d' % len(rcs),
+             '%s:%d' % (cls.file, cls.node.lineno))
+        return
+    ce, rc = rcs[0]
+    # every reference to the commit function is inside the cb= of that RefCounter
     refs = []
-    for f in [pk, ce] + [x for x in pk.module.all_funcs if x.parent in (pk, ce)]:
-        for n in ast.walk(f.node) if f is pk else own_nodes(f.node):
-            if isinstance(n, ast.Name) and n.id == 'commit' and isinstance(n.ctx, ast.Load):
-                refs.append(n)
-    refs = list({id(r): r for r in refs}.values())
-    rc_calls = [n for n in own_nodes(ce.node) if isinstance(n, ast.Call) and src(n.func) in ('RefCounter', 'core.RefCounter')]
-    okref = len(rc_calls) == 1
-    detail = ''
-    if okref:
-        rc = rc_calls[0]
-        cb = next((k.value for k in rc.keywords if k.arg == 'cb'), None)
-        loop = next((k.value for k in rc.keywords if k.arg == 'loop'), None)
-        in_cb = cb is not None and all(any(r is x for x in ast.walk(cb)) for r in refs) and refs
-        part_param = ce.params()[0] if ce.params() else None
-        cb_arg_ok = cb is not None and any(isinstance(c, ast.Call) and src(c.func) == 'commit' and c.args
-                                           and src(c.args[0]) == part_param for c in ast.walk(cb))
-        if not in_cb:
-            okref, detail = False, 'commit is referenced outside the cb= of the RefCounter'
-        elif not cb_arg_ok:
-            okref, detail = False, 'the callback does not commit the batch it was created for'
-        elif loop is None or src(loop) != 'self.loop':
-            okref, detail = False, 'the RefCounter is not bound to self.loop'
-        else:
-            # the counter travels as metadata of the emission of the same batch
-            ref_name = next((t.id for s in own_nodes(ce.node) if isinstance(s, ast.Assign) and s.value is rc
-                             for t in s.targets if isinstance(t, ast.Name)), None)
-            ems = [n for n in own_nodes(ce.node) if isinstance(n, ast.Call) and isinstance(n.func, ast.Attribute) and n.func.attr == '_emit']
-            okem = False
-            for e in ems:
-                md = next((k.value for k in e.keywords if k.arg == 'metadata'), e.args[1] if len(e.args) > 1 else None)
-                if e.args and src(e.args[0]) == part_param and md is not None and isinstance(md, ast.List) and len(md.elts) == 1 \
-                        and isinstance(md.elts[0], ast.Dict) and [src(k) for k in md.elts[0].keys] == ["'ref'"] \
-                        and src(md.elts[0].values[0]) == ref_name:
-                    okem = True
-            if not okem:
-                okref, detail = False, "the batch is not emitted with metadata=[{'ref': <that counter>}]"
-            awaited = any(isinstance(n, (ast.Yield, ast.Await)) and any(x in ems for x in ast.walk(n)) for n in own_nodes(ce.node))
-            if okem and not awaited:
-                okref, detail = False, 'checkpoint_emit does not await the emission'
+    for f in scope(cls):
+        for n in own_nodes(f.node):
+            if (isinstance(n, ast.Name) and n.id == commit.name and commit.owner is None and isinstance(n.ctx, ast.Load)) or \
+                    (isinstance(n, ast.Attribute) and isinstance(n.value, ast.Name) and n.value.id == 'self' and n.attr == commit.name
+                     and commit.owner is not None):
+                refs.append((f, n))
+        # lambdas are not own_nodes' children boundaries for Name search: walk them too
+        for lam in [x for x in own_nodes(f.node) if isinstance(x, ast.Lambda)]:
+            for n in ast.walk(lam):
+                if (isinstance(n, ast.Name) and n.id == commit.name and commit.owner is None) or \
+                        (isinstance(n, ast.Attribute) and isinstance(n.value, ast.Name) and n.value.id == 'self' and n.attr == commit.name
+                         and commit.owner is not None):
+                    refs.append((f, n))
+    refs = list({id(n): (f, n) for f, n in refs}.values())
+    cb = next((k.value for k in rc.keywords if k.arg == 'cb'), None)
+    loop = next((k.value for k in rc.keywords if k.arg == 'loop'), None)
+    okref, detail = True, ''
+    part_param = next((p_ for p_ in ce.params() if p_ != 'self'), None)
+    in_cb = cb is not None and refs and all(any(n is x for x in ast.walk(cb)) for _, n in refs)
+    cb_arg_ok = cb is not None and any(isinstance(c, ast.Call) and _refers_to(c.func, commit) and c.args
+                                       and src(c.args[0]) == part_param for c in ast.walk(cb))
+    if not in_cb:
+        okref, detail = False, 'the commit function is referenced outside the cb= of the RefCounter'
+    elif not cb_arg_ok:
+        okref, detail = False, 'the callback does not commit the batch it was created for'
+    elif loop is None or src(loop) != 'self.loop':
+        okref, detail = False, 'the RefCounter is not bound to self.loop'
     else:
-        detail = 'expected exactly one RefCounter(...) in checkpoint_emit, found %d' % len(rc_calls)
+        ref_name = next((t.id for s_ in own_nodes(ce.node) if isinstance(s_, ast.Assign) and s_.value is rc
+                         for t in s_.targets if isinstance(t, ast.Name)), None)
+        ems = [n for n in own_nodes(ce.node) if isinstance(n, ast.Call) and _attr_call(n, '_emit')]
+        okem = False
+        for e in ems:
+            md = next((k.value for k in e.keywords if k.arg == 'metadata'), e.args[1] if len(e.args) > 1 else None)
+            if e.args and src(e.args[0]) == part_param and md is not None and isinstance(md, ast.List) and len(md.elts) == 1 \
+                    and isinstance(md.elts[0], ast.Dict) and [src(k) for k in md.elts[0].keys] == ["'ref'"] \
+                    and (src(md.elts[0].values[0]) == ref_name or md.elts[0].values[0] is rc):
+                okem = True
+        if not okem:
+            okref, detail = False, "the batch is not emitted with metadata=[{'ref': <that counter>}]"
+        awaited = any(isinstance(n, (ast.Yield, ast.Await)) and any(x in ems for x in ast.walk(n)) for n in own_nodes(ce.node))
+        if okem and not awaited:
+            okref, detail = False, 'the checkpointing function does not await the emission'
     R.ob('COMMIT-ONLY-VIA-REF', ctx.construct(ce), 'refcounter', okref, detail, ctx.where(ce, ce.node.lineno))
-    # every batch handed out goes through checkpoint_emit
-    loops = [l for l in own_nodes(pk.node) if isinstance(l, ast.For) and src(l.iter) == 'out']
-    okloop = False
-    for l in loops:
-        var = l.target.id if isinstance(l.target, ast.Name) else None
-        for c in ast.walk(l):
-            if isinstance(c, ast.Call) and isinstance(c.func, ast.Attribute) and c.func.attr in ('add_callback',) \
-                    and [src(a) for a in c.args] == ['checkpoint_emit', var]:
-                okloop = True
-            if isinstance(c, ast.Call) and src(c.func) == 'checkpoint_emit' and [src(a) for a in c.args] == [var]:
-                okloop = True
-    R.ob('COMMIT-ONLY-VIA-REF', con, 'every-batch-checkpointed', okloop,
-         'the batches in `out` are not each handed to checkpoint_emit', ctx.where(pk, loops[0].lineno if loops else pk.node.lineno))
-
-
-def _append_tuple(pk):
-    for n in own_nodes(pk.node):
-        if isinstance(n, ast.Call) and isinstance(n.func, ast.Attribute) and n.func.attr == 'append' \
-                and src(n.func.value) == 'out' and n.args and isinstance(n.args[0], ast.Tuple):
-            return n
-    return None
-
-
-def kafka_names(pk):
-    """discover the local names of the poll loop by their definitions (alpha-insensitive):
-    low/high = targets of the get_watermark_offsets unpack, part = loop variable of the enclosing for,
-    lowest = the name in the batch tuple's 5th position"""
-    app = _append_tuple(pk)
-    if app is None:
-        raise AnalysisError('FromKafkaBatched.poll_kafka: the batch tuple appended to `out` was not found (unrecognised spelling)')
-    wm = None
-    for n in own_nodes(pk.node):
-        if isinstance(n, ast.Assign) and isinstance(n.targets[0], (ast.Tuple, ast.List)) and isinstance(n.value, ast.Call) \
-                and isinstance(n.value.func, ast.Attribute) and n.value.func.attr == 'get_watermark_offsets' \
-                and len(n.targets[0].elts) == 2 and all(isinstance(e, ast.Name) for e in n.targets[0].elts):
-            wm = n
-    if wm is None:
-        raise AnalysisError('FromKafkaBatched.poll_kafka: `low, high = consumer.get_watermark_offsets(...)` not found')
-    low, high = wm.targets[0].elts[0].id, wm.targets[0].elts[1].id
-    loop = next((l for l in own_nodes(pk.node) if isinstance(l, ast.For) and any(x is wm for x in ast.walk(l))), None)
-    part = loop.target.id if loop is not None and isinstance(loop.target, ast.Name) else None
-    elts = app.args[0].elts
-    lowest = elts[4].id if len(elts) == 6 and isinstance(elts[4], ast.Name) else None
-    return {'app': app, 'wm': wm, 'low': low, 'high': high, 'part': part, 'lowest': lowest, 'loop': loop}
+    # every batch handed out goes through the checkpointing function
+    okloop, where = False, None
+    for f in scope(cls):
+        for l in own_nodes(f.node):
+            if not isinstance(l, ast.For) or not isinstance(l.target, ast.Name):
+                continue
+            var = l.target.id
+            for c in ast.walk(l):
+                if isinstance(c, ast.Call) and _attr_call(c, 'add_callback') and len(c.args) == 2 and _refers_to(c.args[0], ce) \
+                        and src(c.args[1]) == var:
+                    okloop, where = True, (f, l)
+                if isinstance(c, ast.Call) and _refers_to(c.func, ce) and [src(a) for a in c.args] == [var]:
+                    okloop, where = True, (f, l)
+    R.ob('COMMIT-ONLY-VIA-REF', ccon, 'every-batch-checkpointed', okloop,
+         'the batches handed out by a poll are not each given to the checkpointing function',
+         ctx.where(where[0], where[1].lineno) if where else '%s:%d' % (cls.file, cls.node.lineno))
 
 
 def check_tuple_layout(ctx, R):
     M = ctx.model
-    cls, pk = _fkb(ctx)
-    con = ctx.construct(pk)
-    K = kafka_names(pk)
-    app = K['app']
+    cls, _ = _fkb(ctx)
+    K = kafka_names(cls)
+    F, app = K['F'], K['app']
+    con = ctx.construct(F)
     elts = [src(e) for e in app.args[0].elts]
     gmb = M.function('streamz.sources', 'get_message_batch')
     params = gmb.params()
     role = {'self.consumer_params': 'kafka_params', 'self.topic': 'topic', K['part']: 'partition', 'self.keys': 'keys',
-            K['lowest']: 'low'}
+            K['start']: 'low'}
     got = []
-    for e in elts:
+    for i, e in enumerate(elts):
         if e in role:
             got.append(role[e])
-        elif e.replace(' ', '') in ('%s-1' % K['high'],):
+        elif i == 5 and K['end'] is not None:
             got.append('high')
         else:
             got.append('?' + e)
     ok = got == params[:len(got)] and len(got) == 6
     R.ob('TUPLE-LAYOUT', con, 'tuple-vs-get_message_batch', ok,
-         'batch tuple roles %s do not match get_message_batch%s' % (got, tuple(params)), ctx.where(pk, app.lineno))
+         'batch tuple roles %s do not match get_message_batch%s' % (got, tuple(params)), ctx.where(F, app.lineno))
     cudf = M.function('streamz.sources', 'get_message_batch_cudf', required=False)
     if cudf is not None:
         R.ob('TUPLE-LAYOUT', ctx.construct(cudf), 'same-signature', cudf.params()[:6] == params[:6],
              'get_message_batch_cudf%s differs from get_message_batch%s' % (tuple(cudf.params()), tuple(params)),
              ctx.where(cudf, cudf.node.lineno))
-    # starmap(get_message_batch) downstream of the source
     fkb = M.function('streamz.sources', 'from_kafka_batched')
-    sm = [n for n in own_nodes(fkb.node) if isinstance(n, ast.Call) and isinstance(n.func, ast.Attribute) and n.func.attr == 'starmap']
+    sm = [n for n in own_nodes(fkb.node) if isinstance(n, ast.Call) and _attr_call(n, 'starmap')]
     oksm = bool(sm) and all(src(n.args[0]) in ('get_message_batch', 'get_message_batch_cudf') for n in sm if n.args)
     R.ob('TUPLE-LAYOUT', ctx.construct(fkb), 'starmap', oksm, 'the batch tuples are not unpacked into get_message_batch via starmap',
          ctx.where(fkb, sm[0].lineno if sm else fkb.node.lineno))
-    # commit's unpack
-    commit = _nested(pk, 'commit')
+    sites = _commit_fn(cls)
+    if not sites:
+        raise AnalysisError('FromKafkaBatched: no consumer.commit call found')
+    commit = sites[0][0]
     un = [n for n in own_nodes(commit.node) if isinstance(n, ast.Assign) and isinstance(n.targets[0], (ast.Tuple, ast.List))]
-    okc, detail = False, 'no unpack of the batch tuple in commit()'
+    okc, detail = False, 'no unpack of the batch tuple in the commit function'
     if un:
         t = un[0]
-        p = commit.params()[0]
-        if src(t.value).replace(' ', '') == '%s[1:]' % p and len(t.targets[0].elts) == 5:
+        p_ = next((x for x in commit.params() if x != 'self'), None)
+        if src(t.value).replace(' ', '') == '%s[1:]' % p_ and len(t.targets[0].elts) == 5:
             names = [src(e) for e in t.targets[0].elts]
             tp = [n for n in own_nodes(commit.node) if isinstance(n, ast.Call) and src(n.func).endswith('TopicPartition')]
             if tp and len(tp[0].args) == 3:
@@ -226,155 +272,189 @@ def check_tuple_layout(ctx, R):
         else:
             detail = 'commit unpacks %s into %d names' % (src(t.value), len(t.targets[0].elts))
     R.ob('TUPLE-LAYOUT', ctx.construct(commit), 'unpack', okc, detail, ctx.where(commit, commit.node.lineno))
-    cm = [n for n in own_nodes(commit.node) if isinstance(n, ast.Call) and isinstance(n.func, ast.Attribute) and n.func.attr == 'commit']
-    okk = bool(cm) and any(k.arg == 'offsets' for k in cm[0].keywords)
-    R.ob('TUPLE-LAYOUT', ctx.construct(commit), 'commit-offsets', okk, 'commit() is not given offsets=[...]',
-         ctx.where(commit, cm[0].lineno if cm else commit.node.lineno))
+    cm = sites[0][1]
+    R.ob('TUPLE-LAYOUT', ctx.construct(commit), 'commit-offsets', any(k.arg == 'offsets' for k in cm.keywords),
+         'commit() is not given offsets=[...]', ctx.where(commit, cm.lineno))
 
 
 def check_offset_algebra(ctx, R):
-    cls, pk = _fkb(ctx)
-    con = ctx.construct(pk)
-    K = kafka_names(pk)
-    app, LOW, HIGH, PART, LOWEST = K['app'], K['low'], K['high'], K['part'], K['lowest']
-    defs = local_defs(pk.node)
-    if LOWEST is None or PART is None:
-        raise AnalysisError('FromKafkaBatched.poll_kafka: cannot identify the first-offset / partition variables (unrecognised spelling)')
+    cls, _ = _fkb(ctx)
+    K = kafka_names(cls)
+    F, app, LOW, HIGH, PART, START, END = K['F'], K['app'], K['low'], K['high'], K['part'], K['start'], K['end']
+    con = ctx.construct(F)
+    defs = local_defs(F.node)
+    if START is None or PART is None or END is None:
+        raise AnalysisError('FromKafkaBatched: cannot identify the first-offset / end / partition variables of the batch tuple '
+                            '(unrecognised spelling)')
     cursor = 'self.positions[%s]' % PART
+    import re
 
     def N(node):
-        """normal form with the discovered names replaced by roles"""
-        d = {k: v for k, v in defs.items() if k not in (LOW, HIGH, PART, LOWEST) and len(v) == 1 and v[0] is not None
+        d = {k: v for k, v in defs.items() if k not in (LOW, HIGH, PART, START, END) and len(v) == 1 and v[0] is not None
              and isinstance(v[0], ast.Subscript) and src(v[0]) == cursor}
         t = norm(node, d).replace(' ', '')
-        import re
-        for name, role_ in ((LOWEST, 'LOWEST'), (HIGH, 'HIGH'), (LOW, 'LOW')):
+        for name, role_ in ((START, 'START'), (END, 'END'), (HIGH, 'HIGH'), (LOW, 'LOW')):
             t = re.sub(r'(?<![\w.])' + re.escape(name) + r'(?![\w])', role_, t)
         return t.replace(cursor.replace(' ', ''), 'CURSOR').replace('self.max_batch_size', 'MAX')
 
-    lows = defs.get(LOWEST, [])
-    okl = len(lows) == 1 and lows[0] is not None and N(lows[0]) in ('max(CURSOR,LOW)', 'max(LOW,CURSOR)')
+    starts = defs.get(START, [])
+    okl = len(starts) == 1 and starts[0] is not None and N(starts[0]) in ('max(CURSOR,LOW)', 'max(LOW,CURSOR)')
     R.ob('OFFSET-ALGEBRA', con, 'lowest', okl,
-         'the first offset of a batch is not max(cursor, low watermark): %s' % [src(v) for v in lows if v is not None],
-         ctx.where(pk, lows[0].lineno if lows and lows[0] is not None else pk.node.lineno))
+         'the first offset of a batch is not max(cursor, low watermark): %s' % [src(v) for v in starts if v is not None],
+         ctx.where(F, starts[0].lineno if starts and starts[0] is not None else F.node.lineno))
     guard = None
-    for n in own_nodes(pk.node):
+    for n in own_nodes(F.node):
         if isinstance(n, ast.If) and any(x is app for s_ in n.body for x in ast.walk(s_)):
             guard = n
-    okg = guard is not None and N(guard.test) == 'LOWEST<HIGH'
+    same = END == HIGH
+    gform = N(guard.test) if guard is not None else None
+    okg = gform in (('START<END',) if not same else ('START<HIGH', 'START<END'))
     R.ob('OFFSET-ALGEBRA', con, 'guard', okg,
-         'a batch is emitted under %s; expected the strict high > lowest (no empty / negative ranges)' % (src(guard.test) if guard else None),
-         ctx.where(pk, guard.lineno if guard else app.lineno))
+         'a batch is emitted under %s; expected the strict end > start (no empty / negative ranges)' % (src(guard.test) if guard else None),
+         ctx.where(F, guard.lineno if guard else app.lineno))
     adv = [s_ for s_ in (guard.body if guard else []) if isinstance(s_, ast.Assign) and src(s_.targets[0]) == cursor]
-    oka = len(adv) == 1 and src(adv[0].value) == HIGH
+    oka = len(adv) == 1 and src(adv[0].value) == END
     R.ob('OFFSET-ALGEBRA', con, 'cursor-advance', oka,
          'the cursor is not advanced to the exclusive end in the block that hands the range out (ranges would overlap or leave gaps)',
-         ctx.where(pk, adv[0].lineno if adv else app.lineno))
-    last = N(app.args[0].elts[-1]) if app.args[0].elts else ''
-    first = N(app.args[0].elts[-2]) if len(app.args[0].elts) > 1 else ''
-    R.ob('OFFSET-ALGEBRA', con, 'range', last == '(HIGH-1)' and first == 'LOWEST',
-         'the range handed out is [%s, %s]; expected [lowest, high - 1]' % (first, last), ctx.where(pk, app.lineno))
-    high_defs = []
-    for n in own_nodes(pk.node):
-        if isinstance(n, ast.Assign):
+         ctx.where(F, adv[0].lineno if adv else app.lineno))
+    R.ob('OFFSET-ALGEBRA', con, 'range', N(app.args[0].elts[4]) == 'START' and N(app.args[0].elts[5]) in ('(END-1)', '(HIGH-1)'),
+         'the range handed out is not [start, end - 1]', ctx.where(F, app.lineno))
+    # the end is the watermark clamped to start + max_batch_size, and nothing else
+    okh, detail, line = True, '', app.lineno
+    CL = ('(START+MAX)', '(MAX+START)')
+    if same:
+        clamp = 0
+        for n in own_nodes(F.node):
+            if not isinstance(n, ast.Assign) or n is K['wm']:
+                continue
             for t in n.targets:
                 for e in ([t] if not isinstance(t, (ast.Tuple, ast.List)) else t.elts):
                     if isinstance(e, ast.Name) and e.id == HIGH:
-                        high_defs.append(n)
-    okh, detail = True, ''
-    clamp = 0
-    for n in high_defs:
-        if n is K['wm']:
-            continue
-        if isinstance(n.targets[0], (ast.Tuple, ast.List)):
-            okh, detail = False, 'high is unpacked from %s' % src(n.value)
-            continue
-        v = N(n.value)
-        if v in ('(LOWEST+MAX)', '(MAX+LOWEST)'):
-            g = None
-            for x in own_nodes(pk.node):
-                if isinstance(x, ast.If) and any(y is n for y in x.body):
-                    g = x
-            gt = N(g.test) if g is not None else None
-            if gt not in ('(LOWEST+MAX)<HIGH', '(MAX+LOWEST)<HIGH'):
-                okh, detail = False, 'the clamp is applied under %s' % (src(g.test) if g else 'no guard')
-            clamp += 1
-        elif v in ('min(HIGH,(LOWEST+MAX))', 'min((LOWEST+MAX),HIGH)', 'min((MAX+LOWEST),HIGH)', 'min(HIGH,(MAX+LOWEST))'):
-            clamp += 1
+                        v = N(n.value)
+                        line = n.lineno
+                        if isinstance(n.targets[0], (ast.Tuple, ast.List)):
+                            okh, detail = False, 'the watermark variable is unpacked again from %s' % src(n.value)
+                        elif v in CL:
+                            g = next((x for x in own_nodes(F.node) if isinstance(x, ast.If) and any(y is n for y in x.body)), None)
+                            gt = N(g.test) if g is not None else None
+                            if gt not in tuple(c + '<HIGH' for c in CL) + tuple(c + '<END' for c in CL):
+                                okh, detail = False, 'the clamp is applied under %s' % (src(g.test) if g else 'no guard')
+                            clamp += 1
+                        elif v in tuple('min(HIGH,%s)' % c for c in CL) + tuple('min(%s,HIGH)' % c for c in CL) + \
+                                tuple('min(END,%s)' % c for c in CL) + tuple('min(%s,END)' % c for c in CL):
+                            clamp += 1
+                        else:
+                            okh, detail = False, 'the end of the range is re-defined as %s' % src(n.value)
+        if okh and clamp != 1:
+            okh, detail = False, 'expected exactly one clamp of the end to start + max_batch_size, found %d' % clamp
+    else:
+        ends = defs.get(END, [])
+        if len(ends) != 1 or ends[0] is None:
+            okh, detail = False, 'the end of the range has %d definitions' % len(ends)
         else:
-            okh, detail = False, 'high is re-defined as %s' % src(n.value)
-    if clamp != 1 and okh:
-        okh, detail = False, 'expected exactly one clamp of high to lowest + max_batch_size, found %d' % clamp
-    R.ob('OFFSET-ALGEBRA', con, 'high', okh, detail, ctx.where(pk, high_defs[0].lineno if high_defs else pk.node.lineno))
-    if guard is not None and lows and lows[0] is not None:
-        cl = [n.lineno for n in high_defs if n is not K['wm']]
-        oko = lows[0].lineno < min(cl or [guard.lineno]) <= guard.lineno
-        R.ob('OFFSET-ALGEBRA', con, 'order', oko, 'lowest / clamp / guard are not evaluated in that order', ctx.where(pk, guard.lineno))
+            v = N(ends[0])
+            line = ends[0].lineno
+            if v not in tuple('min(HIGH,%s)' % c for c in CL) + tuple('min(%s,HIGH)' % c for c in CL):
+                okh, detail = False, 'the end of the range is %s; expected min(high watermark, start + max_batch_size)' % src(ends[0])
+        redefs = [n for n in own_nodes(F.node) if isinstance(n, ast.Assign) and n is not K['wm'] and any(
+            isinstance(t, ast.Name) and t.id == HIGH for t in n.targets)]
+        if redefs:
+            okh, detail = False, 'the high watermark is re-assigned'
+    R.ob('OFFSET-ALGEBRA', con, 'high', okh, detail, ctx.where(F, line))
+    if guard is not None and starts and starts[0] is not None:
+        R.ob('OFFSET-ALGEBRA', con, 'order', K['wm'].lineno < starts[0].lineno <= guard.lineno,
+             'watermarks / start / guard are not evaluated in that order', ctx.where(F, guard.lineno))
 
 
 def check_seed(ctx, R):
-    cls, pk = _fkb(ctx)
-    con = ctx.construct(pk)
+    cls, _ = _fkb(ctx)
+    ccon = cls.module.name + '.' + cls.name
+    # the poll loop
     poll = None
-    for n in pk.node.body:
-        if isinstance(n, ast.While) and 'self.stopped' in src(n.test):
-            poll = n
+    for f in scope(cls):
+        for n in f.node.body:
+            if isinstance(n, ast.While) and 'self.stopped' in src(n.test):
+                poll = (f, n)
     if poll is None:
-        raise AnalysisError('FromKafkaBatched.poll_kafka: poll loop `while not self.stopped` not found at top level')
+        raise AnalysisError('FromKafkaBatched: poll loop `while not self.stopped` not found at the top level of a method')
+    PF, ploop = poll
     seed = None
-    for n in pk.node.body:
-        if n.lineno >= poll.lineno:
-            break
-        for x in ast.walk(n):
-            if isinstance(x, ast.Assign) and src(x.targets[0]).replace(' ', '') == 'self.positions[tp.partition]' \
-                    and src(x.value) == 'tp.offset':
-                seed = (n, x)
+    for f in scope(cls):
+        for x in own_nodes(f.node):
+            if isinstance(x, ast.Assign) and isinstance(x.targets[0], ast.Subscript) and self_field(x.targets[0]) == 'positions' \
+                    and isinstance(x.value, ast.Attribute) and x.value.attr == 'offset' and isinstance(x.value.value, ast.Name) \
+                    and src(x.targets[0].slice) == x.value.value.id + '.partition':
+                seed = (f, x)
     ok, detail = seed is not None, 'positions are not seeded from consumer.committed() before the poll loop'
     if seed is not None:
-        outer, asg = seed
-        loop = next((l for l in ast.walk(outer) if isinstance(l, ast.For) and any(y is asg for y in ast.walk(l))), None)
+        SF, asg = seed
+        loop = next((l for l in own_nodes(SF.node) if isinstance(l, ast.For) and any(y is asg for y in ast.walk(l))), None)
         it = src(loop.iter) if loop is not None else None
-        cdef = [x for x in ast.walk(outer) if isinstance(x, ast.Assign) and isinstance(x.value, ast.Call)
-                and isinstance(x.value.func, ast.Attribute) and x.value.func.attr == 'committed'
-                and any(isinstance(t, ast.Name) and t.id == it for t in x.targets)]
-        if not cdef:
+        cdef = [x for x in own_nodes(SF.node) if isinstance(x, ast.Assign) and isinstance(x.value, ast.Call)
+                and _attr_call(x.value, 'committed') and any(isinstance(t, ast.Name) and t.id == it for t in x.targets)]
+        if not cdef and not (loop is not None and isinstance(loop.iter, ast.Call) and _attr_call(loop.iter, 'committed')):
             ok, detail = False, 'the seeding loop does not iterate the result of consumer.committed(...)'
-        elif isinstance(outer, ast.While):
-            # retry loop: the only exits are breaks after the seeding loop
+        outer = next((w for w in SF.node.body if isinstance(w, ast.While) and any(y is asg for y in ast.walk(w))), None)
+        if ok and outer is not None:
             brs = [b for b in ast.walk(outer) if isinstance(b, ast.Break)]
             if not brs or any(b.lineno < asg.lineno for b in brs):
                 ok, detail = False, 'the retry loop can be left before positions are seeded'
             if not (isinstance(outer.test, ast.Constant) and outer.test.value is True):
                 ok, detail = False, 'the retry loop may be skipped'
-    R.ob('SEED-FROM-COMMITTED', con, 'positions', ok, detail, ctx.where(pk, seed[1].lineno if seed else poll.lineno))
-    # no path re-initialises positions after seeding (other than appending for new partitions / the latest reset)
-    resets = [n for n in own_nodes(pk.node) if isinstance(n, ast.Assign) and src(n.targets[0]) == 'self.positions'
-              and n.lineno > (seed[1].lineno if seed else 0)]
-    R.ob('SEED-FROM-COMMITTED', con, 'no-reset', not resets, 'self.positions is re-initialised after being seeded',
-         ctx.where(pk, resets[0].lineno) if resets else None)
+        if ok:
+            if SF is PF:
+                anchor = outer if outer is not None else loop
+                if anchor is None or anchor.lineno >= ploop.lineno:
+                    ok, detail = False, 'the seeding does not precede the poll loop'
+            else:
+                # seeding lives in a helper: the poll function must call it, unconditionally, before the loop
+                calls = [s_ for s_ in PF.node.body if s_.lineno < ploop.lineno and any(
+                    isinstance(c, ast.Call) and _refers_to(c.func, SF) for c in ast.walk(s_))
+                    and isinstance(s_, (ast.Expr, ast.Assign))]
+                if not calls:
+                    ok, detail = False, 'the helper that seeds the positions is not called before the poll loop'
+    R.ob('SEED-FROM-COMMITTED', ccon, 'positions', ok, detail,
+         ctx.where(seed[0], seed[1].lineno) if seed else ctx.where(PF, ploop.lineno))
+    resets = []
+    if seed is not None:
+        for f in scope(cls):
+            for n in own_nodes(f.node):
+                if isinstance(n, ast.Assign) and src(n.targets[0]) == 'self.positions':
+                    after = (f is seed[0] and n.lineno > seed[1].lineno) or (f is PF and any(x is n for x in ast.walk(ploop)))
+                    if after:
+                        resets.append((f, n))
+    R.ob('SEED-FROM-COMMITTED', ccon, 'no-reset', not resets, 'self.positions is re-initialised after being seeded',
+         ctx.where(resets[0][0], resets[0][1].lineno) if resets else None)
 
 
 def check_read_range(ctx, R):
     M = ctx.model
     fn = M.function('streamz.sources', 'get_message_batch')
     con = ctx.construct(fn)
+    defs = local_defs(fn.node)
     tp = [n for n in own_nodes(fn.node) if isinstance(n, ast.Call) and src(n.func).endswith('TopicPartition')]
     ok = bool(tp) and [src(a) for a in tp[0].args] == ['topic', 'partition', 'low']
-    R.ob('READ-RANGE', con, 'assign-at-low', ok, 'the consumer is not assigned at (topic, partition, low)', ctx.where(fn, tp[0].lineno if tp else fn.node.lineno))
+    assigned = any(isinstance(n, ast.Call) and _attr_call(n, 'assign') for n in own_nodes(fn.node))
+    R.ob('READ-RANGE', con, 'assign-at-low', ok and assigned, 'the consumer is not assigned at (topic, partition, low)',
+         ctx.where(fn, tp[0].lineno if tp else fn.node.lineno))
+    rets = [n for n in own_nodes(fn.node) if isinstance(n, ast.Return)]
+    out = src(rets[0].value) if rets and isinstance(rets[0].value, ast.Name) else None
     keep = stop = False
     for n in own_nodes(fn.node):
         if isinstance(n, ast.If):
-            t = norm(n.test, {}).replace(' ', '')
-            if t in ('msg.offset()<=high',) and any(isinstance(x, ast.Call) and isinstance(x.func, ast.Attribute) and x.func.attr == 'append' for x in ast.walk(n)):
+            t = norm(n.test, defs).replace(' ', '')
+            appends = any(isinstance(x, ast.Call) and _attr_call(x, 'append') and src(x.func.value) == out for x in ast.walk(n))
+            if t in ('msg.offset()<=high',) and appends:
                 keep = True
             if t in ('high<=msg.offset()',) and any(isinstance(x, ast.Break) for x in n.body):
                 stop = True
     R.ob('READ-RANGE', con, 'keep-upto-high', keep, 'messages are not kept exactly when offset <= high', ctx.where(fn, fn.node.lineno))
     R.ob('READ-RANGE', con, 'stop-at-high', stop, 'the read loop does not stop once offset >= high', ctx.where(fn, fn.node.lineno))
     fin = [n for n in own_nodes(fn.node) if isinstance(n, ast.Try) and any(
-        isinstance(x, ast.Call) and src(x.func) == 'consumer.close' for s in n.finalbody for x in ast.walk(s))]
+        isinstance(x, ast.Call) and src(x.func) == 'consumer.close' for s_ in n.finalbody for x in ast.walk(s_))]
     R.ob('READ-RANGE', con, 'close-in-finally', bool(fin), 'the per-batch consumer is not closed in a finally clause',
          ctx.where(fn, fn.node.lineno))
-    rets = [n for n in own_nodes(fn.node) if isinstance(n, ast.Return)]
-    R.ob('READ-RANGE', con, 'returns-out', bool(rets) and all(src(r.value) == 'out' for r in rets), 'the collected messages are not what is returned',
-         ctx.where(fn, fn.node.lineno))
+    inits = [n for n in own_nodes(fn.node) if isinstance(n, ast.Assign) and isinstance(n.targets[0], ast.Name)
+             and n.targets[0].id == out and isinstance(n.value, ast.List) and not n.value.elts]
+    R.ob('READ-RANGE', con, 'returns-out', bool(rets) and out is not None and all(src(r.value) == out for r in rets) and len(inits) == 1,
+         'the collected messages are not what is returned', ctx.where(fn, fn.node.lineno))
